@@ -126,6 +126,14 @@ CHECKS = {
                  "parse reply equals the reply of a freshly built parser, every later build succeeds, and the grammar's augmented production is `main` after every step.",
         "note": "Trusted: TLC, the reply/grammar projection (harness/stage_life). Bounded: one grammar in two variants, histories <= 3 exhaustively (thorough 4), simulated depth 6-8.",
     },
+    "C16": {
+        "engine": "tlc-trace", "design_ref": "DESIGN.md 7 C16, 9",
+        "technique": "fresh interpreters under several PYTHONHASHSEED values record table digests, conflict reports and forest index orders; DetCheck.tla requires all observations of a grammar to be one value, TLC",
+        "level": "For every explored grammar the serialised table (sorted keys and object order), the conflict reports and the index order of ambiguous forests are identical across six "
+                 "(thorough ten) string-hash seeds and across repeated construction in one process.",
+        "note": "Trusted: TLC, the digest recorder (harness/det_worker.py). The TLA+ part is an equality judgement; the model-level confluence proof of DESIGN 7 C16 is not built. "
+                "Cannot exclude hash dependence in unexplored code paths.",
+    },
     "C18": {
         "engine": "tlc-trace", "design_ref": "DESIGN.md 3.4, 3.5 (FilterCall), 7 C18",
         "technique": "FilterCheck.tla: recorded filter call logs vs marks and returned trees (FilterInitOnce, FilterOnlyMarked, AcceptedTaken, RejectedNotTaken, AcceptAll = NoFilter, RejectP = NoFilter minus p); Prec.tla for precedence-encoding filters, TLC",
